@@ -334,7 +334,24 @@ func (c *Ctx) check(cond bool, rule, fn, construct string, pos token.Pos, tactic
 	return cond
 }
 
-func (c *Ctx) floor(rule string, n int) { c.rep.Floors[rule] = n }
+func (c *Ctx) floor(rule string, n int) {
+	if c.rep.only != nil && !c.rep.only[rule] {
+		return
+	}
+	c.rep.Floors[rule] = n
+}
+
+// withOnly runs f while only the named rules are recorded: a rule family that is a necessary
+// condition of more than one property is run under each of them.
+func (c *Ctx) withOnly(rules []string, f func()) {
+	saved := c.rep.only
+	c.rep.only = map[string]bool{}
+	for _, r := range rules {
+		c.rep.only[r] = true
+	}
+	defer func() { c.rep.only = saved }()
+	f()
+}
 func (c *Ctx) note(format string, a ...any) {
 	c.rep.Notes = append(c.rep.Notes, fmt.Sprintf(format, a...))
 }
